@@ -963,6 +963,22 @@ func (x *rawRun) writeWaits() bool {
 }
 
 func (x *rawRun) doRead() {
+	if x.has('s') {
+		// look before reading: what Peek shows is the stream from the first unread byte on
+		// (segments that arrived in several buffers are handed out one buffer per Read)
+		b1, b2 := make([]byte, 7), make([]byte, 4096)
+		if n, _, err := x.ep.Peek([][]byte{b1, b2}); err == nil && n > 0 {
+			seen := append(append([]byte(nil), b1...), b2...)[:n]
+			rest := x.pData[min(len(x.got), len(x.pData)):]
+			if !bytes.HasPrefix(rest, seen) {
+				i := 0
+				for i < len(seen) && i < len(rest) && seen[i] == rest[i] {
+					i++
+				}
+				x.fail("C01", "stream-mismatch", "peek-mismatch", "Peek after %d bytes were read shows %d bytes that are not the continuation of the stream the peer sent: first difference at offset %d of the peeked data", len(x.got), n, i)
+			}
+		}
+	}
 	v, _, err := x.ep.Read(nil)
 	switch err {
 	case nil:
